@@ -94,6 +94,19 @@ func issuesKey(is []e3Issue) string {
 
 var e3Runs int
 
+// e3RestoreGlobals: the package-level variables of the package under test are put back to the
+// values they had before the first execution of this process, so that no execution sees state
+// left behind by an earlier one (a lazily built global, a process-wide cache or pool).
+var e3Globals *vsched.GlobalSnapshot
+
+func e3RestoreGlobals() {
+	if e3Globals == nil {
+		e3Globals = vsched.SnapshotGlobals(restful.VerifGlobals())
+		return
+	}
+	e3Globals.Restore()
+}
+
 // e3RunOne executes one schedule of a scenario and evaluates all oracles.
 func e3RunOne(sc e3Scenario, prefix []int) (*vsched.Execution, []e3Issue, string) {
 	// The happens-before detector keys its shadow state by address. The garbage collector is off
@@ -105,6 +118,7 @@ func e3RunOne(sc e3Scenario, prefix []int) (*vsched.Execution, []e3Issue, string
 		debug.SetGCPercent(-1)
 		runtime.GC()
 	}
+	e3RestoreGlobals()
 	inst := sc.New()
 	x := vsched.RunOnce(inst.Bodies, prefix, !sc.NoRaces, 0)
 	var issues []e3Issue
